@@ -51,7 +51,18 @@ fn main() {
     let mut line = serde_json::to_vec(&entry).unwrap();
     line.push(b'\n');
     std::fs::OpenOptions::new().create(true).append(true).open(&log).expect("log").write_all(&line).expect("log write");
+    // scripted disappearance of a program: after this invocation the named stand-in is unlinked, so that the next spawn of it fails
+    if let Some(r) = plan.get("remove_prog_after_seq").filter(|r| r.get("seq").and_then(Value::as_u64) == Some(seq as u64)) {
+        if let Ok(dir) = std::env::var("VP_STANDIN_BIN") {
+            let _ = std::fs::remove_file(Path::new(&dir).join(r.get("prog").and_then(Value::as_str).unwrap_or("pack")));
+        }
+    }
     if fail {
+        if plan.get("fail_output").and_then(Value::as_str) == Some("big-unicode") {
+            // > 64 KiB of multi-byte text on both streams (tools that cut logs by byte offset meet a character boundary problem)
+            println!("{}", "日".repeat(30000));
+            eprintln!("{}x", "é".repeat(40000));
+        }
         eprintln!("stand-in: scripted failure of `{kind}`");
         std::process::exit(plan.get("exit").and_then(Value::as_i64).unwrap_or(1) as i32);
     }
